@@ -27,6 +27,10 @@ def run_design(v, w, tier):
     if r["violated"]:
         raise Infra("design model FeeMarket_mc violates a law (specification bug):\n" + r["out"][-3000:])
     log("design run FeeMarket_mc/%s: %d distinct states, %d transitions, all laws hold" % (cfg, r["distinct"], r["generated"]))
+    # named deviation: fee market end-blocker before the gov end-blocker must break the floor after a parameter change
+    r2 = vlib.tlc(d, "FeeMarket_mc", "FeeMarket_mc_dev_order.cfg", workers=4, timeout=1800)
+    if not r2["violated"]:
+        raise Infra("FeeMarket_mc cannot see the end-blocker order deviation: the governance part of the design model is vacuous")
     res, out = vlib.apalache(d, "FeeMarketBig", "AllLaws", timeout=1200)
     if res != "ok":
         raise Infra("FeeMarketBig: a symbolic law fails (specification bug):\n" + out[-3000:])
